@@ -28,14 +28,23 @@ type store struct {
 	// (`mode scratch`), per store name and per nesting depth of the ordered walk; results must not depend on
 	// what a destination held before
 	scratch bool
+	*scratchSet
+}
+
+// scratchSet: destination objects per nesting depth of the ordered walk
+type scratchSet struct {
 	scIters []*simdjson.Iter
 	scObjs  []*simdjson.Object
 	scArrs  []*simdjson.Array
 }
 
+// suiteScratch, when non-nil, is shared by all stores of a suite: destinations then survive from one case (one
+// document, one ParsedJson) to the next
+var suiteScratch *scratchSet
+
 func newStore() *store {
 	return &store{pjs: map[string]*simdjson.ParsedJson{}, iters: map[string]*simdjson.Iter{}, objs: map[string]*simdjson.Object{},
-		arrs: map[string]*simdjson.Array{}, elems: map[string]*simdjson.Elements{}, inputs: map[string][]byte{}}
+		arrs: map[string]*simdjson.Array{}, elems: map[string]*simdjson.Elements{}, inputs: map[string][]byte{}, scratchSet: &scratchSet{}}
 }
 
 func hx(b []byte) string {
@@ -322,6 +331,9 @@ func (st *store) exec(line string) (out string) {
 	case "mode":
 		if ws[1] == "scratch" {
 			st.scratch = true
+			if suiteScratch != nil {
+				st.scratchSet = suiteScratch
+			}
 		}
 		return "ok"
 	case "root":
